@@ -1,5 +1,5 @@
 //! C14 (bounded stand-in, labelled): faithful and deterministic reporting on the REAL entry points.
-//! For ~25 schemas and every single (and a capped number of double) mutation of a conforming JSON document:
+//! For 34 schemas and every single (and a capped number of double) mutation of a conforming JSON document:
 //!   empty     Err(Validation(list)) carries a non-empty list (JSON and CBOR)
 //!   resolve   every JSON error location is "" or a slash-separated path that resolves to a node of the
 //!             validated document (most lenient reading: a key may itself contain '/', no escaping assumed)
@@ -160,6 +160,16 @@ const SCHEMAS: &[(&str, &str)] = &[
   ("t = { ? a: { ? b: { ? c: int } } }\n", "{\"a\":{\"b\":{\"c\":1}}}"),
   ("t = [ [ [ int ] ] ]\n", "[[[1]]]"),
   ("t = { a: [ int, { b: [ tstr, { c: bool } ] } ] }\n", "{\"a\":[1,{\"b\":[\"s\",{\"c\":true}]}]}"),
+  // rules, generics, sockets, unwrap and choices reached THROUGH a member or an element
+  ("t = { x: g<int> }\ng<T> = { y: T }\n", "{\"x\":{\"y\":1}}"),
+  ("t = [ g<int>, g<tstr> ]\ng<T> = { y: T }\n", "[{\"y\":1},{\"y\":\"s\"}]"),
+  ("t = { x: inner }\ninner = { y: int, z: [* tstr] }\n", "{\"x\":{\"y\":1,\"z\":[\"s\"]}}"),
+  ("t = { x: $ext }\n$ext /= { y: int }\n", "{\"x\":{\"y\":1}}"),
+  ("t = { x: [ ~pair ] }\npair = [ int, tstr ]\n", "{\"x\":[1,\"s\"]}"),
+  ("t = { x: { y: int } / [ int ] }\n", "{\"x\":{\"y\":1}}"),
+  ("t = { x: { y: int } .within any }\n", "{\"x\":{\"y\":1}}"),
+  ("t = { x: ( { y: int } ) }\n", "{\"x\":{\"y\":1}}"),
+  ("t = { x: [ * { y: int } ] }\n", "{\"x\":[{\"y\":1},{\"y\":2}]}"),
 ];
 
 fn paths(v: &J, cur: &mut Vec<String>, out: &mut Vec<Vec<String>>) {
